@@ -147,6 +147,11 @@ REQUIRED_COUNTERS_THOROUGH = REQUIRED_COUNTERS_QUICK + ["op_forgecut", "wire_ser
 
 def replay(ctx, tb, behs, tag, timeout=1500, extra=None):
     inp = {"tables": tb, "behaviours": behs}
+    if os.environ.get("VERIF_C03_FAMILIES"):
+        # restrict the name families (e.g. to show a clean run next to the known findings of the
+        # raw-presentation-text families); recorded in the evidence file
+        inp["families"] = [f for f in os.environ["VERIF_C03_FAMILIES"].split(",") if f]
+        ctx.cov["replay"]["families_restricted_to"] = inp["families"]
     if extra:
         inp.update(extra)
     res = ctx.go_driver("./c03", "TestC03Replay", inp, name="replay_" + tag, timeout=timeout)
@@ -222,6 +227,7 @@ def run(ctx, replay_path):
         ctx.tlc(MOD, "MC_CacheKey.tla", "MC_Quads.cfg", workers=8, timeout=2400, heap="12g")
     # ---- conformance --------------------------------------------------------
     behs = simulate(ctx, "Sim_Quick.cfg", num=int(os.environ.get("VERIF_C03_SIM", 0)) or (260 if not thorough else 1200), depth=9)
+    behs += simulate(ctx, "Sim_Purge.cfg", num=120 if not thorough else 600, depth=9)
     if thorough:
         behs += simulate(ctx, "Sim_Triples.cfg", num=900, depth=11, workers=6)
     if len(behs) < 50:
